@@ -652,9 +652,11 @@ def forbidden_values(objs, A):
     Fs = []
     for o in objs:
         try:
-            Fs.append(getattr(o, A))
+            F = getattr(o, A)
         except Exception:  # noqa: BLE001  (AttributeError; UndefinedError for undefined bases)
-            pass
+            continue
+        if F is not o:  # a ChainableUndefined answers every public name with itself: the receiver is not a secret
+            Fs.append(F)
     return Fs
 
 
